@@ -82,16 +82,21 @@ Definition sm_ready (start : N) (l : list tx) : list tx * list tx :=
   end.
 
 (* ---------- list.go: list ---------- *)
+(* [l_cache] is SortedMap.cache: the flattened, nonce-sorted copy handed out by Flatten /
+   LastElement ([None] = nil).  Every mutator invalidates or adjusts it exactly where the Go
+   code does; Go's slice expressions on the cache (Forward, Cap) panic when the cache is
+   longer/shorter than assumed, which cannot happen while cache = items (LegacyProofs.cache_ok). *)
 Record tlist := mkL {
-  l_strict : bool; l_txs : list tx; l_costcap : N; l_gascap : N; l_total : Z }.
+  l_strict : bool; l_txs : list tx; l_costcap : N; l_gascap : N; l_total : Z;
+  l_cache : option (list tx) }.
 
-Definition new_list (strict : bool) : tlist := mkL strict [] 0 0 0%Z.
+Definition new_list (strict : bool) : tlist := mkL strict [] 0 0 0%Z None.
 Definition l_len (l : tlist) : nat := length (l_txs l).
 Definition l_empty (l : tlist) : bool := match l_txs l with [] => true | _ => false end.
 Definition l_contains (n : N) (l : tlist) : bool :=
   match sm_get n (l_txs l) with Some _ => true | None => false end.
-Definition with_txs (l : tlist) (txs : list tx) (tot : Z) : tlist :=
-  mkL (l_strict l) txs (l_costcap l) (l_gascap l) tot.
+Definition with_txs (l : tlist) (txs : list tx) (tot : Z) (cache : option (list tx)) : tlist :=
+  mkL (l_strict l) txs (l_costcap l) (l_gascap l) tot cache.
 
 (* list.subTotalCost; a negative result = Go's "totalcost underflow" panic *)
 Definition sub_total (txs : list tx) (tot : Z) : Z :=
@@ -123,18 +128,19 @@ Definition list_add (t : tx) (bump : N) (l : tlist) : add_res * tlist :=
       (AddOk old,
        mkL (l_strict l) (sm_put t (l_txs l))
            (if l_costcap l <? cost t then cost t else l_costcap l)
-           (if l_gascap l <? t_gas t then t_gas t else l_gascap l) total).
+           (if l_gascap l <? t_gas t then t_gas t else l_gascap l) total None).
 
 (* list.Forward *)
 Definition list_forward (th : N) (l : tlist) : list tx * tlist :=
   let '(rem, keep) := sm_forward th (l_txs l) in
-  (rem, with_txs l keep (sub_total rem (l_total l))).
+  (* SortedMap.Forward: m.cache = m.cache[len(removed):] *)
+  (rem, with_txs l keep (sub_total rem (l_total l)) (option_map (skipn (length rem)) (l_cache l))).
 
 (* list.Filter: (removed, invalids, list) *)
 Definition list_filter (cost_limit gas_limit : N) (l : tlist) : list tx * list tx * tlist :=
   if (l_costcap l <=? cost_limit) && (l_gascap l <=? gas_limit) then ([], [], l)
   else
-    let l1 := mkL (l_strict l) (l_txs l) cost_limit gas_limit (l_total l) in
+    let l1 := mkL (l_strict l) (l_txs l) cost_limit gas_limit (l_total l) (l_cache l) in
     let '(removed, rest) :=
       sm_filter (fun t => (gas_limit <? t_gas t) || (cost_limit <? cost t)) (l_txs l) in
     match removed with
@@ -147,13 +153,15 @@ Definition list_filter (cost_limit gas_limit : N) (l : tlist) : list tx * list t
           else ([], rest) in
         (removed, invalids,
          mkL (l_strict l) rest' cost_limit gas_limit
-             (sub_total invalids (sub_total removed (l_total l))))
+             (sub_total invalids (sub_total removed (l_total l))) None)   (* filter / reheap: cache = nil *)
     end.
 
 (* list.Cap *)
 Definition list_cap (th : nat) (l : tlist) : list tx * tlist :=
   let '(drops, keep) := sm_cap th (l_txs l) in
-  (drops, with_txs l keep (sub_total drops (l_total l))).
+  (* SortedMap.Cap: m.cache = m.cache[:len(m.cache)-len(drops)] (nothing dropped: untouched) *)
+  (drops, with_txs l keep (sub_total drops (l_total l))
+            (option_map (fun c => firstn (length c - length drops) c) (l_cache l))).
 
 (* list.Remove: (found, invalids, list) — removal is by NONCE, as in Go *)
 Definition list_remove (t : tx) (l : tlist) : bool * list tx * tlist :=
@@ -163,17 +171,25 @@ Definition list_remove (t : tx) (l : tlist) : bool * list tx * tlist :=
       let tot := sub_total [t] (l_total l) in
       if l_strict l then
         let '(inv, rest') := sm_filter (fun x => t_nonce t <? t_nonce x) rest in
-        (true, inv, with_txs l rest' (sub_total inv tot))
-      else (true, [], with_txs l rest tot)
+        (true, inv, with_txs l rest' (sub_total inv tot) None)
+      else (true, [], with_txs l rest tot None)   (* SortedMap.Remove: cache = nil *)
   end.
 
 (* list.Ready *)
 Definition list_ready (start : N) (l : tlist) : list tx * tlist :=
   let '(rdy, keep) := sm_ready start (l_txs l) in
-  (rdy, with_txs l keep (sub_total rdy (l_total l))).
+  (* SortedMap.Ready returns early (cache untouched) when nothing is ready, else cache = nil *)
+  let early := match l_txs l with [] => true | x :: _ => start <? t_nonce x end in
+  (rdy, with_txs l keep (sub_total rdy (l_total l)) (if early then l_cache l else None)).
 
 (* list.LastElement (None = index out of range panic) *)
-Definition list_last (l : tlist) : option tx := last (map Some (l_txs l)) None.
+(* SortedMap.flatten / list.Flatten: sort into the cache unless it is already there *)
+Definition list_flatten (l : tlist) : list tx * tlist :=
+  let c := match l_cache l with Some c => c | None => l_txs l end in
+  (c, with_txs l (l_txs l) (l_total l) (Some c)).
+(* list.LastElement, through the cache (None = index out of range panic) *)
+Definition list_last (l : tlist) : option tx * tlist :=
+  let '(c, l') := list_flatten l in (last (map Some c) None, l').
 
 (* ---------- pool state ---------- *)
 Record cfg := mkCfg {
@@ -829,9 +845,9 @@ Definition set_all_nonces (st : pool) : pool :=
   fold_left (fun s a =>
                match p_pending st a with
                | None => s
-               | Some l => match list_last l with
-                           | Some t => pn_set a (t_nonce t + 1) s
-                           | None => set_panic s end
+               | Some l => match list_last l with     (* LastElement fills the list's cache *)
+                           | (Some t, l') => pn_set a (t_nonce t + 1) (set_pending s (upd (p_pending s) a (Some l')))
+                           | (None, l') => set_panic (set_pending s (upd (p_pending s) a (Some l'))) end
                end) (c_accts (p_cfg st)) (set_pn st (fun _ => None)).
 
 Definition queue_addresses (st : pool) : list N :=
@@ -870,6 +886,33 @@ Definition pool_SetGasTip (tip : N) (st : pool) : pool :=
     priced_removed (length drop) st2
   else st1.
 
+(* ---------- the public listing paths (they fill the sorted caches) ---------- *)
+Definition flatten_pending (a : N) (st : pool) : list tx * pool :=
+  match p_pending st a with
+  | None => ([], st)
+  | Some l => let '(c, l') := list_flatten l in (c, set_pending st (upd (p_pending st) a (Some l')))
+  end.
+Definition flatten_queue (a : N) (st : pool) : list tx * pool :=
+  match p_queue st a with
+  | None => ([], st)
+  | Some l => let '(c, l') := list_flatten l in (c, set_queue st (upd (p_queue st) a (Some l')))
+  end.
+
+(* LegacyPool.ContentFrom *)
+Definition pool_ContentFrom (a : N) (st : pool) : (list tx * list tx) * pool :=
+  let '(p, st1) := flatten_pending a st in
+  let '(q, st2) := flatten_queue a st1 in ((p, q), st2).
+
+(* LegacyPool.Content: per account (in universe order) the pending and the queued listing *)
+Definition pool_Content (st : pool) : list (list tx * list tx) * pool :=
+  fold_left (fun '(acc, s) a => let '(pq, s') := pool_ContentFrom a s in (acc ++ [pq], s'))
+            (c_accts (p_cfg st)) ([], st).
+
+(* LegacyPool.Pending with an empty filter *)
+Definition pool_Pending (st : pool) : list (list tx) * pool :=
+  fold_left (fun '(acc, s) a => let '(p, s') := flatten_pending a s in (acc ++ [p], s'))
+            (c_accts (p_cfg st)) ([], st).
+
 (* New + Init *)
 Definition pool_init (c : cfg) (gastip : N) (genesis : block) : pool :=
   mkPool c gastip (block_chain genesis) (fun _ => None) (fun _ => None) (fun _ => None)
@@ -879,13 +922,17 @@ Definition pool_init (c : cfg) (gastip : N) (genesis : block) : pool :=
 Inductive op :=
 | OpAdd (txs : list tx)
 | OpReset (blocks : list block) (old new : block)
-| OpSetGasTip (tip : N).
+| OpSetGasTip (tip : N)
+| OpContent | OpContentFrom (a : N) | OpPending.
 
 Definition step (st : pool) (o : op) : pool :=
   match o with
   | OpAdd txs => fst (pool_Add txs st)
   | OpReset blocks old new => run_reorg_reset blocks old new st
   | OpSetGasTip tip => pool_SetGasTip tip st
+  | OpContent => snd (pool_Content st)
+  | OpContentFrom a => snd (pool_ContentFrom a st)
+  | OpPending => snd (pool_Pending st)
   end.
 
 Definition run_history (st : pool) (h : list op) : pool := fold_left step h st.
